@@ -9,6 +9,17 @@ from sa.check import run_rules, corpus_validate, load
 from sa.core import VERIF
 PROPS = ["C01", "C02", "C03", "C04", "C05", "C06", "C07", "C08", "C09", "C10", "C11", "C12", "C13", "C14", "C15", "C16", "C17", "C18", "C19", "C20"]
 path = os.path.join(VERIF, "corpus_expect.json")
+if "--from" in sys.argv:
+    # the same list derived from a tools/corpus_measure.py run over benign/ and seeded/ on the same machinery (same in-memory analysis,
+    # same criterion: a seed is reported when its property raises a new VIOLATION, a refactor is silent when nothing is raised)
+    cm = json.load(open(sys.argv[sys.argv.index("--from") + 1]))
+    unrep = sorted(k.split("/")[1] for k, v in cm.items() if k.startswith("seeded/") and v.get(k.split("/")[1][:3], {}).get("rc", 0) != 1)
+    open_b = {k[len("benign/"):]: sorted(v) for k, v in sorted(cm.items()) if k.startswith("benign/") and v}
+    out = {"_comment": "open items measured by tools/corpus_measure.py + tools/corpus_expect.py --from on the committed machinery; see DESIGN.md section 10.8",
+           "seed_unreported": unrep, "benign_open": open_b}
+    json.dump(out, open(path, "w"), indent=1)
+    print("written", path, "-", len(unrep), "seeds unreported,", sum(len(v) for v in open_b.values()), "open (benign patch, property) pairs")
+    sys.exit(0)
 if os.path.exists(path):
     os.rename(path, path + ".old")
 try:
